@@ -86,13 +86,14 @@ fn canon(p: &mut Parser, ctx: Ctx, prefix: Option<&str>, rewrite: bool, out: &mu
                 }
                 in_class = false;
             }
-            Token::Dimension { value, unit, .. } if rewrite && unit.as_ref() == "rpx" => {
-                out.push(format!("num:{:.4e}vw", (*value as f64) * 100.0 / 750.0));
+            Token::Dimension { value, unit, has_sign, .. } if rewrite && unit.as_ref() == "rpx" => {
+                out.push(format!("num:{}{:.4e}vw", if *has_sign && !value.is_sign_negative() { "+" } else { "" }, (*value as f64) * 100.0 / 750.0));
                 in_class = false;
             }
-            Token::Dimension { value, unit, .. } => { out.push(format!("num:{:.4e}{}", *value as f64, unit)); in_class = false; }
-            Token::Number { value, .. } => { out.push(format!("num:{:.4e}", *value as f64)); in_class = false; }
-            Token::Percentage { unit_value, .. } => { out.push(format!("num:{:.4e}%", *unit_value as f64)); in_class = false; }
+            // an explicit plus sign is part of the token (An+B, `+5`): it must survive
+            Token::Dimension { value, unit, has_sign, .. } => { out.push(format!("num:{}{:.4e}{}", if *has_sign && !value.is_sign_negative() { "+" } else { "" }, *value as f64, unit)); in_class = false; }
+            Token::Number { value, has_sign, .. } => { out.push(format!("num:{}{:.4e}", if *has_sign && !value.is_sign_negative() { "+" } else { "" }, *value as f64)); in_class = false; }
+            Token::Percentage { unit_value, has_sign, .. } => { out.push(format!("num:{}{:.4e}%", if *has_sign && !unit_value.is_sign_negative() { "+" } else { "" }, *unit_value as f64)); in_class = false; }
             t => { out.push(t.to_css_string()); in_class = false; }
         }
     }
@@ -104,14 +105,14 @@ fn canon_str(css: &str, prefix: Option<&str>, rewrite: bool) -> Vec<String> {
     canon(&mut p, Ctx::Sel, prefix, rewrite, &mut out);
     out
 }
-const SEL: &[&str] = &[".a", ".md\\:x", " ", ".b", ">", ",", ":not(", ":is(", ")", ":hover", "/*c*/", "#i", "[x=y]", "::slotted(", ":nth-child(2n + 1 of "];
+const SEL: &[&str] = &[".a", ".md\\:x", " ", ".b", ">", ",", ":not(", ":is(", ")", ":hover", "/*c*/", "#i", "[x=y]", "::slotted(", ":nth-child(2n + 1 of ", ":nth-child(+3)"];
 /// token-level selector pieces: the dot, identifiers and the tokens that may come between them are separate pieces, so that
 /// every adjacency (`.` `,` `b`; `.` `:` `hover`; `.` ` ` `a`; `[` `.` `=` `b` `]`) is visited -- an identifier is a class name only
 /// immediately after the dot
 /// (no comment piece here: a comment between two identifiers, `a/*c*/a`, is re-printed with a space as separator, which
 /// reads as a descendant combinator -- but that input is not a well-formed selector, outside C08's quantifier)
 const SEL2: &[&str] = &[".", "a", "b", " ", ",", ">", ":", "*", ":is(", ":not(", ")", "[", "]", "=", "#i"];
-const VAL: &[&str] = &["calc(", "min(", "CALC(", "Clamp(", "1px", " + ", " - ", "2rpx", "(", ")", "*3", "var(--x,", " ", ",", "/*c*/", "red", ";", "!important", "#fff", ";height:"];
+const VAL: &[&str] = &["calc(", "min(", "CALC(", "Clamp(", "1px", " + ", " - ", "2rpx", "(", ")", "*3", "var(--x,", " ", ",", "/*c*/", "red", ";", "!important", "#fff", ";height:", "+5", "-0", "+5px"];
 const WRAP: &[(&str, &str)] = &[("", ""), ("@media (min-width:1rpx){", "}"), ("@MEDIA (min-width:1px){", "}"), ("@layer x{", "}"), ("@supports selector(.c .d){", "}"), ("@container n (min-width: calc(1px + 2rpx)){", "}")];
 const BOUND: &str = "selectors of <= 4 token-level pieces from 15 (dot, identifiers, combinators, colon, star, :is/:not, brackets, =, hash; plain, under @media and inside x:is(..)), selectors of <= 4 pieces from 14 selector pieces (classes, combinators, :not/:is/::slotted/:nth-child(.. of ..), comments) under 6 wrappers (none, @media, @MEDIA, @layer, @supports selector(), @container with calc), and declaration values of <= 4 pieces from 20 value pieces (calc, min, CALC, Clamp, nested parentheses, var, rpx, comments, `;` also doubled and leading, !important, a hash, a second declaration); only inputs the transformer accepts without a warning; class prefixes `p` and the empty prefix";
 
